@@ -516,5 +516,15 @@ def r9_sentinel_identity(chk: Check) -> None:
         chk.undecided("C10.R9", "<discovery>", f"sites={n_tests}", "fewer identity tests than confirmed by hand")
 
 
+def r10_memo(chk: Check) -> None:
+    from . import shared
+
+    P = chk.project
+    mods = ('specs/openapi/stateful/links.py', 'specs/openapi/stateful/__init__.py', 'specs/openapi/stateful/control.py', 'specs/openapi/expressions/lexer.py', 'specs/openapi/expressions/parser.py', 'specs/openapi/expressions/nodes.py', 'specs/openapi/expressions/__init__.py', 'generation/stateful/state_machine.py', 'core/transforms.py')
+    fns = [f for m in mods if m in P.by_relpath for f in P.module(m).functions.values() if not isinstance(f.node, ast.Lambda)]
+    shared.memo_key_rule(chk, "C10.R10", fns, {("_set_cache_entry", "data"): "a setter: the value to store is handed in by get(), which computed it for this key", ("_get_body_strategy", "operation"): "a parameter belongs to exactly one operation (stated next to the cache)"},
+                         "MEMO-KEY(anchor modules of this property): a link's value depends on the expression AND the source exchange: a cache keyed by less passes another exchange's value", floor=0)
+
+
 def rules(tier: str) -> list:  # type: ignore[type-arg]
-    return [r1_exhaustive, r2_resolvability, r3_errors, r4_status_matching, r5_evaluate, rfwd_forwarding, r6_pointer_index, r7_responses_values_total, r8_node_tables, r9_sentinel_identity]
+    return [r1_exhaustive, r2_resolvability, r3_errors, r4_status_matching, r5_evaluate, rfwd_forwarding, r6_pointer_index, r7_responses_values_total, r8_node_tables, r9_sentinel_identity, r10_memo]
